@@ -84,6 +84,10 @@ def compare(res, spec, vals, keys, algebraic=(), tags=(), scale_hints=None,
                                             for lab, v, info, *_ in rows]])
 
 
+class CachedValueChanged(Exception):
+    pass
+
+
 def eval_keys(rel, keys):
     code = {}
     with common.Quiet():
@@ -93,6 +97,16 @@ def eval_keys(rel, keys):
                 code[k] = np.array(v, copy=True)
             except Exception as e:  # a raise is an observation too
                 code[k] = e
+        # second pass (all cache hits): what was handed out must still be what
+        # the instance returns after the later requests
+        for k in keys:
+            if isinstance(code[k], np.ndarray) and k in rel.data:
+                again = np.asarray(rel[k])
+                if again.shape != code[k].shape or not np.array_equal(
+                        again, code[k], equal_nan=True):
+                    code[k] = CachedValueChanged(
+                        f"{k} changed after later requests (max diff "
+                        f"{np.nanmax(np.abs(again - code[k])) if again.shape == code[k].shape else 'shape'})")
     return code
 
 
